@@ -70,6 +70,18 @@ def sinks (job : String) (n : Int) : Option (List (List (List Int))) :=
       ((p.1 + sumI (items.map (·.2))) % M, items)
     let r := iterN 3 step (0, ys.map fun x => (x, x))
     some [[[r.1]], r.2.map fun q => [q.1, q.2]]
+  | "side_left_merge" =>
+    let ys := rangeI (minI n 200)
+    let es := ys.map (· * 2) ++ ys
+    let step := fun (st : Int) => (st + sumI (es.map fun e => (e + st) % M)) % M
+    some [[[iterN 3 step 0]]]
+  | "side_left_join" =>
+    let ys := rangeI (minI n 200)
+    let step := fun (p : Int × List (Int × Int)) =>
+      let items := p.2.map fun q => (q.1, (q.2 + p.1) % M)
+      ((p.1 + sumI (items.map (·.2))) % M, items)
+    let r := iterN 3 step (0, ys.map fun x => (x, x))
+    some [[[r.1]], r.2.map fun q => [q.1, q.2]]
   | "fold_assoc" => some [if xs.isEmpty then [] else [[sumI xs]]]
   | "keyed_chain" =>
     let zs := xs.flatMap fun x => [x, x + 1]
